@@ -190,7 +190,8 @@ def _run(scn, w, res):
                             "pipe 0 listens on %s, user opened it with %s (TX address %s)" % (ru.pipe_addr(0).hex(), user0.hex(), tx.hex() if tx else None))
                 elif full(user0):
                     got = probe_rx(user0[:aw], True)
-                    if got != [0]:
+                    # (a pipe without auto-ack stores every re-transmission of the probe: model decision M4)
+                    if not got or set(got) != {0}:
                         res.add("rx_pipe0", {"kind": "probe_not_received"}, "probe to the user's pipe-0 address %s arrived on pipes %r" % (user0[:aw].hex(), got))
             if full(tx) and (user0 is None or not full(user0) or tx[:aw] != user0[:aw]) and (p1 is None or tx[:aw] != p1[:aw]):
                 got = probe_rx(tx[:aw], False)
